@@ -1078,8 +1078,18 @@ class Interp:
                 0 <= int(key[1]) < len(base[1][2]):
             return intern(('elem', base[1][2][int(key[1])], base[2]))
         if base[0] == 'elem' and base[1][0] == 'call' and base[1][1] == 'enumerate' \
-                and len(base[1][2]) == 1 and key == num(1):
+                and len(base[1][2]) == 1 and key == num(1) and not base[1][3]:
             return intern(('elem', base[1][2][0], base[2]))
+        if base[0] == 'elem' and base[1][0] == 'call' and base[1][1] == 'enumerate' \
+                and base[1][2] and is_num(key) and key[1] in (0, 1):
+            # enumerate(x, start): the count is the zero-based position + start
+            args, kws = base[1][2], dict(base[1][3])
+            start = args[1] if len(args) == 2 else kws.get('start')
+            if start is not None and len(args) <= 2 and set(kws) <= {'start'}:
+                plain = intern(('elem', ('call', 'enumerate', (args[0],), ()), base[2]))
+                if key == num(1):
+                    return intern(('elem', args[0], base[2]))
+                return intern(('bin', '+', ('idx', plain, num(0)), start))
         if base[0] == 'call' and base[1] in ('numpy.array', 'numpy.asarray') and \
                 len(base[2]) == 1 and base[2][0][0] in ('list', 'tuple') and \
                 is_num(key) and key[1].denominator == 1:
@@ -1087,6 +1097,22 @@ class Interp:
             i = int(key[1])
             if -len(items) <= i < len(items):
                 return items[i]
+        if base[0] == 'ite' and is_num(key) and key[1].denominator == 1:
+            # a join of literal tuples (a helper returning (a, b) on each path):
+            # the position is taken per branch
+            def leaves(t):
+                if t[0] == 'ite':
+                    return leaves(t[2]) + leaves(t[3])
+                return [t]
+            i = int(key[1])
+            if all(x[0] in ('tuple', 'list') and -len(x[1]) <= i < len(x[1])
+                   for x in leaves(base)):
+                def push(t):
+                    if t[0] == 'ite':
+                        a, b = push(t[2]), push(t[3])
+                        return a if a == b else intern(('ite', t[1], a, b))
+                    return t[1][i]
+                return push(base)
         if base[0] == 'dict' and key[0] in ('const', 'num'):
             for k, v in base[1]:
                 if k == key:
